@@ -277,6 +277,32 @@ def ob_mm(sys, m2, m1):
     return FnOb(state_inputs(sys), run, assume=assume, eager_ite=True, max_paths=80, expect_nonlinear=True)
 
 
+def ob_shape_kept(sys, gname, mname, shape):
+    """a gate composed before / after a measurement process with a multi-axis outcome shape: the result keeps that shape and its
+    outcome x is G o M_x resp. M_x o G (symbolic gate perturbation t)"""
+    def run(I):
+        from quara.objects.operators import compose_qoperations as comp
+        c = qenv.csys(sys)
+        G0 = objlib.gates(sys)[gname]
+        t = I["t"]
+        n = c.dim ** 2
+        D = np.diag([1.0] + [0.0] * (n - 1))
+        hsG = np.asarray(G0.hs, dtype=object) * (1 - t) + D.astype(object) * t       # mixture with the completely depolarising channel
+        hsG = hsG.view(SymNd) if nd.has_sym(hsG) else hsG.astype(np.float64)
+        G = mk_gate(c, hsG)
+        M0 = objlib.mprocesses(sys)[mname]
+        M = mk_mprocess(c, [h.copy() for h in M0.hss], shape=tuple(shape))
+        GM = comp(G, M)      # M first, then G
+        MG = comp(M, G)      # G first, then M
+        out = [Holds("G o M keeps the outcome shape", tuple(GM.shape) == tuple(shape)), Holds("M o G keeps the outcome shape", tuple(MG.shape) == tuple(shape)),
+               Holds("number of outcomes kept", len(GM.hss) == len(M.hss) and len(MG.hss) == len(M.hss))]
+        for x in range(len(M.hss)):
+            out.append(Eq(f"(G o M)_{x} == hs(G) hs(M_{x})", GM.hss[x], refs.mm(hsG, M.hss[x]), 1e-9))
+            out.append(Eq(f"(M o G)_{x} == hs(M_{x}) hs(G)", MG.hss[x], refs.mm(M.hss[x], hsG), 1e-9))
+        return out
+    return FnOb([("t", "real", 0.0, 1.0)], run, max_paths=20)
+
+
 def chain_ref(kinds, names, sys, rho):
     """reference statistics of a time-ordered chain state -> [gate|mprocess]* -> (povm)?   (kinds in time order)"""
     branches = [((), rho)]
@@ -458,6 +484,43 @@ def ob_generate_mprocess_spectral(sys, mode, vname):
                 outside=["degenerate spectra", "frames outside the library"])
 
 
+def ob_generate_mprocess_degenerate(sys, vname):
+    """generate_mprocess(mode 1) for a POVM element with a REPEATED eigenvalue: E = V diag(a,..,a,b) V† (the same symbol a on the first
+    d-1 eigenvectors): the back-action is the projector onto the whole eigenspace, HS = a P_a (x) conj(P_a) + b P_b (x) conj(P_b) with
+    P_a = sum of the eigenspace's projectors -- coherences inside the eigenspace survive"""
+    from symq import stubs
+    d = DIMS[sys]
+    V = dict(refs.unitary_library(d))[vname]
+    B = basis_of(sys)
+
+    def run(I):
+        c = qenv.csys(sys)
+        a, b = I["a"], I["b"]
+        w = [a] * (d - 1) + [b]
+        w2 = [1.0 - b] + [1.0 - a] * (d - 1)
+        V2 = V[:, ::-1].copy()
+        E = stubs.spectral(w, V, "E0")
+        F = stubs.spectral(w2, V2, "E1")
+        vecs = [refs.ref_vec(E, B).real, refs.ref_vec(F, B).real]
+        pv = mk_povm(c, vecs)
+        mp = pv.generate_mprocess(1)
+        Pa = sum(np.outer(V[:, i], V[:, i].conj()) for i in range(d - 1))
+        Pb = np.outer(V[:, d - 1], V[:, d - 1].conj())
+        kraus = [[Pa.astype(object) * Sym.of(a).sqrt(), Pb.astype(object) * Sym.of(b).sqrt()],
+                 [Pb.astype(object) * Sym.of(1.0 - b).sqrt(), Pa.astype(object) * Sym.of(1.0 - a).sqrt()]]
+        out = []
+        back = mp.to_povm()
+        for k in range(2):
+            out.append(Eq(f"to_povm()[{k}] == povm[{k}]", back.vecs[k], vecs[k], 1e-7))
+            out.append(Eq(f"HS[{k}] == eigenvalue-weighted eigenspace projectors", mp.hss[k], refs.ref_hs_from_kraus(kraus[k], B).real, 1e-7))
+        return out
+
+    def assume(I):
+        return [SBool.of(I["a"] + 1e-3 <= I["b"])]
+    return FnOb([("a", "real", 0.01, 0.99), ("b", "real", 0.01, 0.99)], run, assume=assume, max_paths=60, expect_nonlinear=True,
+                stubs=["np.linalg.eigh: spectral parametrisation with a repeated eigenvalue, frame " + vname])
+
+
 CHAINS_Q1 = [
     (["state", "gate", "povm"], [None, "ampdamp", 3]),
     (["state", "gate", "gate", "povm"], [None, "S", "ampdamp", 4]),
@@ -487,6 +550,9 @@ def obligations(tier):
     out += specs("C06.mprocess_mprocess", [{"sys": "Q1", "m2": "trine3", "m1": "z_then_U"}] + tiers(tier, [], [{"sys": "Q1", "m2": "z_then_U", "m1": "trine3"}]), ob_mm, 4)
     # CHAINS_LONG[1:] (two measurements followed by a final POVM, 4-5 operations) exhaust a 200 s exploration budget on the divisions
     # of the state ensemble: they are outside the claim (DESIGN.md 7.6)
+    out += specs("C06.generate_mprocess.degenerate", [{"sys": "Q1", "vname": "cplx"}, {"sys": "T1", "vname": "cplx+1"}], ob_generate_mprocess_degenerate, 3)
+    out += specs("C06.shape_kept", [{"sys": "Q1", "gname": "ampdamp", "mname": "trine3", "shape": sh} for sh in ([1, 3], [3, 1])] +
+                 [{"sys": "Q1", "gname": "S", "mname": "z_then_U", "shape": [1, 2]}], ob_shape_kept, 1)
     for kinds, names in CHAINS_Q1 + tiers(tier, [], CHAINS_LONG[:1]):
         n_meas = sum(1 for k in kinds if k == "mprocess") + (1 if kinds[-1] == "povm" else 0)
         out += specs("C06.bracket", [{"sys": "Q1", "kinds": kinds, "names": names, "one_param": n_meas >= 2}], ob_bracket, 3 * len(kinds))
